@@ -368,10 +368,37 @@ Definition jv_of (v : json) : jvalue :=
   end.
 Definition ov_of (v : json) : ov := from_jsonb_value (jv_of v).
 
-(* well-formed values within the size limits of the format: numbers are 64-bit patterns, strings and
-   keys are UTF-8, below the root they are shorter than 2^16 bytes (their length field is a u16), a
-   root string is shorter than 2^28 bytes (header count field); the whole encoding is at most 2^24
-   bytes (offsets are 24-bit fields) *)
+(* what the Rust types guarantee: numbers are 64-bit patterns, strings and keys are UTF-8 *)
+Fixpoint typed (v : json) : bool :=
+  match v with
+  | JNum bits => in_u 64 bits
+  | JStr s => utf8_valid s
+  | JArr els => forallb typed els
+  | JObj kvs => forallb (fun kv => match kv with (k, e) => utf8_valid k && typed e end) kvs
+  | _ => true
+  end.
+
+(* the `check` function of JsonbBuilder::try_build: strings and keys below the root at most u16::MAX
+   bytes (their length field is a u16), a root string at most 0x0FFF_FFFF bytes (header count field) *)
+Fixpoint limits_ok (nested : bool) (v : json) : bool :=
+  match v with
+  | JStr s => if nested then blen s <=? 65535 else blen s <=? 268435455
+  | JArr els => forallb (limits_ok true) els
+  | JObj kvs => forallb (fun kv => match kv with (k, e) => (blen k <=? 65535) && limits_ok true e end) kvs
+  | _ => true
+  end.
+
+Definition is_str (v : json) : bool := match v with JStr _ => true | _ => false end.
+
+(* JsonbBuilder::try_build (the SQL conversion path stores its result): refuse what the format cannot
+   represent, otherwise exactly `build` *)
+Definition try_build (v : json) : res (list Z) :=
+  if limits_ok false v then
+    let buf := encode_value v in
+    if is_str v || (blen buf <=? OFFSET_MASK + 1) then Ok buf else Err
+  else Err.
+
+(* well-formed values within the size limits of the format: typed, and limits_ok *)
 Fixpoint wf_json (nested : bool) (v : json) : bool :=
   match v with
   | JNum bits => in_u 64 bits
@@ -380,7 +407,9 @@ Fixpoint wf_json (nested : bool) (v : json) : bool :=
   | JObj kvs => forallb (fun kv => match kv with (k, e) => utf8_valid k && (blen k <? 2 ^ 16) && wf_json true e end) kvs
   | _ => true
   end.
-Definition fits (v : json) : bool := wf_json false v && (blen (encode_value v) <=? 2 ^ 24).
+(* ... and, unless the document is a single string, an encoding of at most 2^24 bytes (offsets are 24-bit fields) *)
+Definition fits (v : json) : bool :=
+  wf_json false v && (is_str v || (blen (encode_value v) <=? 2 ^ 24)).
 
 (* ------------------------------------------------------------------ equal JSON values (specification)
    arrays are sequences, objects are unordered collections of members (a member may occur more than
